@@ -842,9 +842,19 @@ func vbLabelSet(l [][2]int) map[string]string {
 	return m
 }
 
+// when set (per history), all peers of a configuration sit on ONE address and differ by port and VRF
+// (one BGPPeer per rack / per VRF towards the same router)
+var vbSharedPeerAddr = false
+
 func vbBuildPeer(p vbPeer) *config.Peer {
 	c := &config.Peer{Name: vbPeerName(p.Name), Addr: net.ParseIP(fmt.Sprintf("10.9.0.%d", p.Name+1)),
 		ASN: uint32(64512 + p.Attr), MyASN: 64512}
+	if vbSharedPeerAddr {
+		c.Addr, c.Port = net.ParseIP("10.9.0.1"), uint16(179+p.Name)
+		if p.Name%2 == 1 {
+			c.VRF = fmt.Sprintf("vrf%d", p.Name)
+		}
+	}
 	for _, s := range p.Sels {
 		c.NodeSelectors = append(c.NodeSelectors, labels.SelectorFromSet(labels.Set(vbLabelSet(s))))
 	}
